@@ -142,6 +142,30 @@ impl<'a> BoundaryFeature<'a> {
     }
 }
 
+#[cfg(feature = "verif-hooks")]
+impl BoundaryFeature<'_> {
+    fn to_verif(&self) -> crate::verif::Feature {
+        match self {
+            Self::CharacterNgram(f) => crate::verif::Feature::CharNgram {
+                ngram: f.ngram.to_string(),
+                rel: f.rel_position,
+            },
+            Self::CharacterTypeNgram(f) => crate::verif::Feature::TypeNgram {
+                ngram: f.ngram.to_vec(),
+                rel: f.rel_position,
+            },
+            Self::DictionaryWord(f) => crate::verif::Feature::Dict {
+                length: f.length,
+                side: match f.position {
+                    DictionaryWordPosition::Left => 0,
+                    DictionaryWordPosition::Inside => 1,
+                    DictionaryWordPosition::Right => 2,
+                },
+            },
+        }
+    }
+}
+
 #[derive(Clone, Copy)]
 struct DummyValue;
 
@@ -392,9 +416,15 @@ impl<'a> Trainer<'a> {
 
         let bias = unsafe { (bias / quantize_multiplier).to_int_unchecked::<i32>() };
 
+        #[cfg(feature = "verif-hooks")]
+        crate::verif::boundary_begin(bias, model.labels());
+
         for (feature, fid) in self.feature_ids {
             let raw_weight = model.feature_coefficient(i32::try_from(fid)?, wb_idx);
             let weight = unsafe { (raw_weight / quantize_multiplier).to_int_unchecked::<i32>() };
+
+            #[cfg(feature = "verif-hooks")]
+            crate::verif::boundary_weight(feature.to_verif(), weight);
 
             if weight == 0 {
                 continue;
@@ -489,6 +519,27 @@ impl<'a> Trainer<'a> {
     /// Returns the number of boundary features.
     pub fn n_features(&self) -> usize {
         self.feature_ids.len()
+    }
+
+    /// Returns the stored training examples with decoded features (verification hook).
+    #[cfg(feature = "verif-hooks")]
+    pub fn verif_examples(&self) -> Vec<crate::verif::Example> {
+        let mut id_to_feature = HashMap::new();
+        for (feature, &fid) in &self.feature_ids {
+            id_to_feature.insert(fid, feature.to_verif());
+        }
+        self.xs
+            .iter()
+            .zip(&self.ys)
+            .map(|(x, &y)| {
+                (
+                    x.iter()
+                        .map(|(fid, cnt)| (id_to_feature[fid].clone(), *cnt))
+                        .collect(),
+                    y,
+                )
+            })
+            .collect()
     }
 }
 
